@@ -83,17 +83,17 @@ func c11GovFills(e *c11Env, ctx sdk.Context) (map[string]func(signer string) sdk
 		return &exchange.MsgGovCloseMarketRequest{Authority: s, MarketId: 2}
 	}
 	f["/provenance.exchange.v1.MsgUpdateParamsRequest"] = func(s string) sdk.Msg {
-		return &exchange.MsgUpdateParamsRequest{Authority: s, Params: *exchange.DefaultParams()}
+		return &exchange.MsgUpdateParamsRequest{Authority: s, Params: exchange.Params{DefaultSplit: 777}}
 	}
 	// attribute, ibchooks, ibcratelimit
 	f["/provenance.attribute.v1.MsgUpdateParamsRequest"] = func(s string) sdk.Msg {
-		return &attributetypes.MsgUpdateParamsRequest{Authority: s, Params: attributetypes.DefaultParams()}
+		return &attributetypes.MsgUpdateParamsRequest{Authority: s, Params: attributetypes.Params{MaxValueLength: 4321}}
 	}
 	f["/provenance.ibchooks.v1.MsgUpdateParamsRequest"] = func(s string) sdk.Msg {
-		return &ibchookstypes.MsgUpdateParamsRequest{Authority: s, Params: ibchookstypes.DefaultParams()}
+		return &ibchookstypes.MsgUpdateParamsRequest{Authority: s, Params: ibchookstypes.Params{AllowedAsyncAckContracts: []string{other.String()}}}
 	}
 	f["/provenance.ibcratelimit.v1.MsgUpdateParamsRequest"] = func(s string) sdk.Msg {
-		return &ibcratelimit.MsgUpdateParamsRequest{Authority: s, Params: ibcratelimit.DefaultParams()}
+		return &ibcratelimit.MsgUpdateParamsRequest{Authority: s, Params: ibcratelimit.NewParams(other.String())}
 	}
 	// marker
 	f["/provenance.marker.v1.MsgSupplyIncreaseProposalRequest"] = func(s string) sdk.Msg {
@@ -127,7 +127,7 @@ func c11GovFills(e *c11Env, ctx sdk.Context) (map[string]func(signer string) sdk
 			DenomUnits: []*banktypes.DenomUnit{{Denom: denom, Exponent: 0}}}}
 	}
 	f["/provenance.marker.v1.MsgUpdateParamsRequest"] = func(s string) sdk.Msg {
-		return &markertypes.MsgUpdateParamsRequest{Authority: s, Params: markertypes.DefaultParams()}
+		return &markertypes.MsgUpdateParamsRequest{Authority: s, Params: markertypes.NewParams(true, "[a-z]{3,40}", markertypes.StringToBigInt("123456789"))}
 	}
 	// msgfees
 	f["/provenance.msgfees.v1.MsgAddMsgFeeProposalRequest"] = func(s string) sdk.Msg {
@@ -153,7 +153,7 @@ func c11GovFills(e *c11Env, ctx sdk.Context) (map[string]func(signer string) sdk
 		return &nametypes.MsgModifyNameRequest{Authority: s, Record: nametypes.NameRecord{Name: "c11root", Address: other.String(), Restricted: true}}
 	}
 	f["/provenance.name.v1.MsgUpdateParamsRequest"] = func(s string) sdk.Msg {
-		return &nametypes.MsgUpdateParamsRequest{Authority: s, Params: nametypes.DefaultParams()}
+		return &nametypes.MsgUpdateParamsRequest{Authority: s, Params: nametypes.NewParams(31, 3, 9, true)}
 	}
 	// oracle
 	f["/provenance.oracle.v1.MsgUpdateOracleRequest"] = func(s string) sdk.Msg {
@@ -170,7 +170,7 @@ func c11GovFills(e *c11Env, ctx sdk.Context) (map[string]func(signer string) sdk
 		return &sanction.MsgUnsanction{Authority: s, Addresses: []string{other.String()}}
 	}
 	f["/cosmos.sanction.v1beta1.MsgUpdateParams"] = func(s string) sdk.Msg {
-		return &sanction.MsgUpdateParams{Authority: s, Params: sanction.DefaultParams()}
+		return &sanction.MsgUpdateParams{Authority: s, Params: &sanction.Params{ImmediateSanctionMinDeposit: e.coins("11nhash"), ImmediateUnsanctionMinDeposit: e.coins("12nhash")}}
 	}
 	// trigger (the Authority field is the trigger's owner: the gov authority is a stranger here too)
 	f["/provenance.trigger.v1.MsgDestroyTriggerRequest"] = func(s string) sdk.Msg {
